@@ -79,6 +79,61 @@ fn c04_core_wiring_allowlist() {
     );
 }
 
+/// Every IPv6 peer: an IPv4-mapped one gets the verdict of the embedded IPv4 address, any other one is judged as the
+/// IPv6 address it is (in particular it is not matched by IPv4 CIDRs, not even `::a.b.c.d`).
+fn wiring_v6(specs: &[(Option<&'static str>, Option<&'static str>, bool)], refs: &[RefRule]) {
+    let mut store: std::mem::ManuallyDrop<[Rule; 3]>;
+    let engine = engine_on_stack!(store, specs);
+    let mut sa;
+    let mut ca;
+    let ctx = fabricate_context!(sa, ca, crate::settings::verif_c04::settings_with_rules(Some(std::mem::ManuallyDrop::into_inner(engine))));
+    let o: [u8; 16] = kani::any();
+    let v6 = Ipv6Addr::from(o);
+    let peer = IpAddr::V6(v6);
+    let canonical = match v6.to_ipv4_mapped() {
+        Some(v4) => IpAddr::V4(v4),
+        None => peer,
+    };
+    let admitted = verdict(&ctx, Some(peer), None);
+    if let Some(want) = ref_evaluate(refs, &canonical, None) {
+        assert!(admitted == (want == RuleEvaluation::Allow), "C04.core.v6_peer: an IPv6 peer is not judged by its actual address (IPv4-mapped -> the IPv4 address, anything else -> the IPv6 address itself)");
+        kani::cover!(want == RuleEvaluation::Deny, "C04.cover.core_v6_deny");
+        kani::cover!(want == RuleEvaluation::Allow, "C04.cover.core_v6_allow");
+    }
+}
+
+// @harness tier=quick core=yes bound="rules [10.0.0.0/8 allow; (any) deny]; every IPv6 peer address (2^128), no client random"
+// @desc an IPv6 peer is matched by IPv4 CIDRs only when it is IPv4-mapped
+// @encodes core::Core::evaluate_connection_rules
+#[kani::proof]
+#[kani::unwind(40)]
+#[kani::stub(alloc::fmt::format, fmt_format_stub)]
+fn c04_core_wiring_v6_peer_v4_rules() {
+    wiring_v6(
+        &[(Some("10.0.0.0/8"), None, false), (None, None, true)],
+        &[
+            RefRule { cidr: RefCidr::V4(0x0a000000, 8), pat: RefPat::Any, deny: false },
+            RefRule { cidr: RefCidr::Any, pat: RefPat::Any, deny: true },
+        ],
+    );
+}
+
+// @harness tier=quick core=yes bound="rules [::1/128 deny; 2001:db8::/32 deny]; every IPv6 peer address (2^128), no client random"
+// @desc IPv6 CIDR rules apply to the IPv6 peer address itself (loopback and low addresses included)
+// @encodes core::Core::evaluate_connection_rules
+#[kani::proof]
+#[kani::unwind(40)]
+#[kani::stub(alloc::fmt::format, fmt_format_stub)]
+fn c04_core_wiring_v6_peer_v6_rules() {
+    wiring_v6(
+        &[(Some("::1/128"), None, true), (Some("2001:db8::/32"), None, true)],
+        &[
+            RefRule { cidr: RefCidr::V6(1, 128), pat: RefPat::Any, deny: true },
+            RefRule { cidr: RefCidr::V6(0x20010db8_0000_0000_0000_0000_0000_0000, 32), pat: RefPat::Any, deny: true },
+        ],
+    );
+}
+
 // @harness tier=quick core=yes bound="no rules engine / no peer address; symbolic client random presence"
 // @desc without an engine, or without a peer address, the connection is admitted (documented behaviour)
 // @encodes core::Core::evaluate_connection_rules
